@@ -48,14 +48,15 @@ func verifSameValue(a, b octosql.Value) bool {
 	return false
 }
 
-// verifAssertSameValues asserts element by element, durations first: the duration round trip
-// (x/1e9*1e9, decided by the cvc5 integer back end) is undecided as soon as a floating-point fact
-// of an earlier assertion is part of the path condition.
+// verifAssertSameValues asserts element by element, durations and times first: the duration round
+// trip (x/1e9*1e9, decided by the cvc5 integer back end) is undecided as soon as a floating-point
+// fact of an earlier assertion is part of the path condition (the same holds for times when a
+// changed encoder goes through UnixNano, see seeded/C26-s1).
 func verifAssertSameValues(a, b []octosql.Value, tag string) {
 	zzverif.Assert(len(a) == len(b), tag+"-count")
 	for pass := 0; pass < 2; pass++ {
 		for i := range a {
-			if (a[i].TypeID == octosql.TypeIDDuration) == (pass == 0) {
+			if (a[i].TypeID == octosql.TypeIDDuration || a[i].TypeID == octosql.TypeIDTime) == (pass == 0) {
 				zzverif.Assert(verifSameValue(a[i], b[i]), tag)
 			}
 		}
@@ -300,4 +301,45 @@ func VerifC26ExecutionContext() {
 	}
 	zzverif.Assert(b == nil, "no-extra-frame")
 	verifAssertSameValues(want, have, "same-frame-values")
+}
+
+// verifFarTimes: instants outside the window in which UnixNano is defined (1678..2262) and on
+// its edges: Go's zero time, year 1, 1500, the last second before / first after the window,
+// 9999-12-31 ("no end date" sentinels), and execution's watermark extremes.
+var verifFarTimes = []time.Time{
+	{},
+	time.Date(1, 1, 1, 0, 0, 0, 1, time.UTC),
+	time.Date(1500, 6, 15, 12, 0, 0, 500, time.UTC),
+	time.Date(1677, 9, 21, 0, 12, 43, 145224191, time.UTC),  // 1 ns before the window
+	time.Date(1677, 9, 21, 0, 12, 43, 145224192, time.UTC),  // first instant of the window
+	time.Unix(0, 1<<63-1),                                   // last instant of the window
+	time.Date(2262, 4, 11, 23, 47, 16, 854775808, time.UTC), // 1 ns after the window
+	time.Date(9999, 12, 31, 23, 59, 59, 999999999, time.UTC),
+	time.Unix(-1, 999999999),
+}
+
+// VerifC26TimeValue: time VALUES over the whole range of time.Time that timestamppb documents
+// (years 0001..9999), not only 1678..2262: WIDE=0: the instants of verifFarTimes (concrete);
+// WIDE=1: additionally an arbitrary instant time.Unix(sec, nsec) with sec in
+// [0001-01-01, 9999-12-31] and nsec in [0, 1e9), at the top level or (NEST=1) inside a list.
+func VerifC26TimeValue() {
+	var t time.Time
+	k := zzverif.Choice("t.sample", len(verifFarTimes)+zzverif.Param("WIDE"))
+	if k < len(verifFarTimes) {
+		t = verifFarTimes[k]
+	} else {
+		sec := zzverif.Int64("t.sec")
+		nsec := zzverif.Int64("t.nsec")
+		zzverif.Assume(zzverif.And(sec >= -62135596800, sec <= 253402300799))
+		zzverif.Assume(zzverif.And(nsec >= 0, nsec < 1000000000))
+		t = time.Unix(sec, nsec)
+	}
+	v := octosql.NewTime(t)
+	if zzverif.Param("NEST") == 1 {
+		v = octosql.NewList([]octosql.Value{octosql.NewInt(1), v})
+	}
+	w := NativeValueToProto(v).ToNativeValue()
+	zzverif.Reach("converted")
+	zzverif.Assert(verifSameValue(v, w), "same-instant")
+	zzverif.Assert(w.Compare(v) == 0, "compare-equal")
 }
